@@ -237,8 +237,44 @@ def mode_reference(m, T, P, include_ZPE=True):
     if t == 'RigidRotor':
         s = m['symmetrynumber']
         if isinstance(s, str):
-            s = POINT_GROUPS[s]
+            s = POINT_GROUPS.get(s) or symmetry_number_of_label(s)
         return rigid_rotor(m['geometry'], s, m['rot_temperatures'], T)
     if t == 'GroundStateElec':
         return ground_state_elec(m.get('potentialenergy', 0.0), m.get('spin', 0.0), T)
+    return None
+
+
+# ---------------------------------------------------------------- point-group labels (general rule)
+def symmetry_number_of_label(label):
+    """Rotational symmetry number (order of the rotational subgroup) of a point group given by its
+    Schoenflies label, by rule rather than by table:
+    C1, Ci, Cs -> 1;  Cn, Cnv, Cnh -> n;  Dn, Dnd, Dnh -> 2n;  S2n -> n (odd Sn = Cnh -> n);
+    T, Td, Th -> 12;  O, Oh -> 24;  I, Ih -> 60;  Cinfv -> 1;  Dinfh -> 2.
+    Returns None for a label the rule does not understand."""
+    import re
+    if not isinstance(label, str):
+        return None
+    s = label.strip()
+    if s in ('C1', 'Ci', 'Cs'):
+        return 1
+    if s in ('Cinfv', 'Coov', 'C*v'):
+        return 1
+    if s in ('Dinfh', 'Dooh', 'D*h'):
+        return 2
+    if s in ('T', 'Td', 'Th'):
+        return 12
+    if s in ('O', 'Oh'):
+        return 24
+    if s in ('I', 'Ih'):
+        return 60
+    m = re.fullmatch(r'C([1-9]\d*)(v|h)?', s)
+    if m:
+        return int(m.group(1))
+    m = re.fullmatch(r'D([1-9]\d*)(d|h)?', s)
+    if m:
+        return 2 * int(m.group(1))
+    m = re.fullmatch(r'S([1-9]\d*)', s)
+    if m:
+        n = int(m.group(1))
+        return n // 2 if n % 2 == 0 else n
     return None
